@@ -218,13 +218,33 @@ func runC13(c *Ctx) {
 					rec = true
 				}
 			})
+			// ToNode refuses nothing itself: what decodes must re-encode, so the only error it reports is a recovered
+			// bindnode panic (no own validation on the way out)
+			ownErr := ""
+			instrs(tn.SSA, func(in ssa.Instruction) {
+				switch in := in.(type) {
+				case *ssa.Store:
+					if isErrorType(in.Val.Type()) && !isNilConst(in.Val) {
+						if _, isAlloc := in.Addr.(*ssa.Alloc); isAlloc {
+							ownErr = c.pos(in.Pos())
+						}
+					}
+				case *ssa.Return:
+					if len(in.Results) == 2 {
+						if r := c.RetX(in, 1); r.Op != "nil" && r.Op != "alloc" && r.Op != "var" && r.Op != "deref" {
+							ownErr = c.pos(in.Pos())
+						}
+					}
+				}
+			})
+			c.Check(ownErr == "", "C13.U4-tonode-total", tn.Name+" › refuses nothing itself", tn.SSA.Pos(), "the only error ToNode can return is the recovered panic", "ToNode returns an error of its own (at "+ownErr+"): a value that decoded without error can no longer be re-encoded")
 			c.Check(okWrap && rec && deferred, "C13.U4-tonode-total", tn.Name, tn.SSA.Pos(), "wraps with "+t.proto+".Type() under a deferred recover that turns a panic into the returned error", "ToNode does not wrap with its own prototype's type or lets bindnode panics escape")
 		}
 	}
 	c.Floor("C13.U1-foreign-prototype-rebuilt", 3)
 	c.Floor("C13.U2-prototype-type-pairing", 6)
 	c.Floor("C13.U6-unwrapped-unmodified", 3)
-	c.Floor("C13.U4-tonode-total", 2)
+	c.Floor("C13.U4-tonode-total", 4)
 
 	// ---- U3 decode helper ---------------------------------------------------------------------------------
 	if d := c.RoleFn("schema.decode"); d != nil {
